@@ -994,6 +994,75 @@ fn known_structure(case: &Case) -> (BTreeMap<String, char>, BTreeSet<(String, St
     (kinds, edges)
 }
 
+/// How many read sites of which constant every generated item has in its
+/// source: (full name of the item, full name of the constant) → sites.
+fn known_sites(case: &Case) -> BTreeMap<(String, String), usize> {
+    let items = &case.items;
+    let full = |it: &Item| format!("{}.{}", ABS[it.module], it.name());
+    let mut m: BTreeMap<(String, String), usize> = BTreeMap::new();
+    for it in items {
+        for r in it.refs.iter().filter(|r| items[r.to].is_const) {
+            let t = &items[r.to];
+            let per_site = read_form(t, r.form).1.matches("$P").count();
+            let shape = if r.multi != EARLY { r.multi } else if it.is_const { 1 } else { EARLY };
+            let sites = if shape == EARLY { 2 } else { MULTI[shape as usize].1.matches("$V").count() };
+            *m.entry((full(it), full(t))).or_default() += per_site * sites;
+        }
+        if it.is_const {
+            let am = acc_module(it);
+            let per_read = read_form(it, 0).1.matches("$P").count();
+            let mut names = vec![it.name()];
+            if it.alias.is_some() {
+                names.push(format!("A{}", it.n));
+                m.insert((format!("{}.A{}", ABS[it.module], it.n), full(it)), 1);
+            }
+            for name in names {
+                let c = format!("{}.{name}", ABS[it.module]);
+                m.insert((format!("{am}.rd_{name}"), c.clone()), per_read);
+                if it.acc & 4 == 4 {
+                    m.insert((format!("{am}.test#t_{name}"), c), per_read);
+                }
+            }
+        }
+    }
+    m
+}
+
+/// The lowered bodies against the source: every read site of a constant is one
+/// `ConstantAddress` of that constant in the body of the item it stands in — no
+/// site shares the read of another one, whatever path it lies on.
+fn check_read_sites(rep: &mut Report, case: &Case, lir: &[LirItem], input: &Value) {
+    let want = known_sites(case);
+    let mut got: BTreeMap<(String, String), usize> = BTreeMap::new();
+    for i in lir {
+        let name = match &i.constant {
+            Some((full, _)) => full.clone(),
+            None => i.name.clone(),
+        };
+        for (c, n) in i.consts.iter().zip(&i.const_reads) {
+            *got.entry((name.clone(), c.clone())).or_default() += n;
+        }
+    }
+    for (k, w) in &want {
+        let g = got.get(k).copied().unwrap_or(0);
+        if g != *w {
+            rep.mismatch(
+                "the lowered body of an item reads a constant (ConstantAddress) another number of times than the item has read sites of it",
+                json!({"case": input, "item": k.0, "constant": k.1, "read_sites": w, "constant_address_instructions": g}),
+            );
+        }
+    }
+    for (k, g) in &got {
+        if !want.contains_key(k) {
+            rep.mismatch(
+                "the lowered body of an item reads a constant the item does not mention (generator)",
+                json!({"case": input, "item": k.0, "constant": k.1, "constant_address_instructions": g}),
+            );
+        }
+    }
+    rep.hist("lir-read-sites", format!("at most {} sites of one constant in one item", want.values().max().copied().unwrap_or(0)));
+}
+
 /// full name of the module the accessor / test item of a constant lives in
 fn acc_module(it: &Item) -> &'static str {
     if it.acc & 8 == 8 { ABS[it.module] } else { "pkg" }
@@ -1603,6 +1672,9 @@ fn run_case(rep: &mut Report, drv: &mut Driver, seed: u64, index: u64) {
     if let Some(l) = &lir {
         let ok = matches!(compiled, Ok(Ok(_)));
         check_lir(rep, drv, l, if ok { Some(&log) } else { None }, compiled.is_err(), &input);
+        if ok {
+            check_read_sites(rep, &case, l, &input);
+        }
         for i in l {
             for f in &i.funcs {
                 if f.starts_with("::generated::") {
